@@ -177,6 +177,13 @@ def probe_hessian(inp: Dict[str, Any]) -> Dict[str, Any]:
 
     names, method = inp["names"], inp["method"]
     s, x, ch, mu = esh.batch(names)
+    if inp.get("near_symmetric"):
+        # an exactly symmetric molecule whose coordinates carry noise of the size an optimiser leaves: orbital levels that are degenerate by symmetry are
+        # split by tiny amounts, the regime where the derivative of the eigen-decomposition needs its degeneracy handling
+        sym = {"ch4": [[0.0, 0.0, 0.0], [0.63, 0.63, 0.63], [-0.63, -0.63, 0.63], [-0.63, 0.63, -0.63], [0.63, -0.63, -0.63]],
+               "nh3": [[0.0, 0, 0.1173], [0, 0.9377, -0.2737], [0.8121, -0.4689, -0.2737], [-0.8121, -0.4689, -0.2737]]}[names[0]]
+        rngn = np.random.default_rng(inp.get("seed", 0))
+        x = (np.array(sym) + rngn.normal(size=(len(sym), 3)) * float(inp["near_symmetric"]))[None]
     sp = esh.settings(method=method, eps=1e-12, converger=[0, 0.1], scf_backward=2)
 
     def grad_at(xx, create_graph=False):
@@ -252,6 +259,8 @@ def gen_cases(ctx: Ctx):
         cases.append(("hessian", {"names": ["h2o"], "method": "AM1", "cols": [0, 4, 7]}))
     else:
         cases.append(("hessian", {"names": ["h2"], "method": "AM1", "cols": [0, 4]}))
+    # second derivatives of a nearly symmetric molecule (degenerate levels split by 1e-9 .. 1e-5 eV)
+    cases.append(("hessian", {"names": [["ch4"], ["nh3"]][ctx.seed % 2], "method": str(rng.choice(["AM1", "PM3"])), "cols": [0, 4], "near_symmetric": float(rng.choice([1e-7, 1e-6])), "seed": int(rng.integers(0, 10**6))}))
     return cases
 
 
